@@ -180,7 +180,7 @@ static void run_class(Run &run, Cn &cn, int c, bool thorough) {
         if (!sampled && p.nthreads == 2 && p.calls[0][0] != p.calls[1][0]) { run.sample(ex.case_of({}) + " -> " + std::to_string(ex.schedules) + " schedules, " + std::to_string(ex.outcomes.size()) + " outcome(s)"); sampled = true; }
     };
     std::vector<int> All; for (int q = 0; q < zoo_queries(c); ++q) All.push_back(q);
-    const std::vector<int> &A2 = thorough ? All : A;   // thorough: the whole 8-query alphabet for 2x2 and 3x1
+    const std::vector<int> &A2 = All;   // the whole 8-query alphabet for 2x2 and 3x1
     for (int a : A2) for (int b : A2) for (int d : A2) for (int e : A2) { Program p{c, 2, {{a, b}, {d, e}}}; do_prog(p); }
     for (int a : A2) for (int b : A2) for (int d : A2) { Program p{c, 3, {{a}, {b}, {d}}}; do_prog(p); }
     if (thorough) {
@@ -249,10 +249,10 @@ int main(int argc, char **argv) {
     mc::Run::EvidenceExtra ev;
     ev.states_counter = "layer2_schedules_executed"; ev.transitions_counter = "layer2_scheduling_points"; ev.nontrivial_counter = "layer2_programs"; ev.eval_counter = "layer1_queries_monitored";
     ev.rule = "7 objects (PGMIndex, Compressed, Bucketing, Elias-Fano, Mapped, Multidimensional, Dynamic with several non-empty levels and tombstones), 8 read-only queries each. Layer 1: every query runs twice under an access monitor fed by clang's -fsanitize=thread instrumentation "
-              "(own runtime): accesses to the thread's stack or to memory allocated inside the query are private, everything else is shared; the property requires the set of unsynchronised shared writes to be empty. Layer 2: for every assignment of a 4-query sub-alphabet to 2 threads x 2 calls and 3 threads x 1 call, "
+              "(own runtime): accesses to the thread's stack or to memory allocated inside the query are private, everything else is shared; the property requires the set of unsynchronised shared writes to be empty. Layer 2: for every assignment of the 8 queries of a class to 2 threads x 2 calls and 3 threads x 1 call, "
               "every schedule within the preemption bound is executed on real threads under a serialising scheduler whose scheduling points are call boundaries, accesses to conflict-set locations, atomics and mutex operations (with an empty conflict set this is every interleaving at call granularity); each call must return its solo digest. "
               "Layer 3 (cross-check, sampling): the same queries on 16 free-running threads under the real ThreadSanitizer. A state is one executed schedule, a transition one scheduling point; non-trivial = one multi-threaded program.";
-    ev.bounds = std::string("preemption bound ") + (thorough ? "3" : "2") + "; " + (thorough ? "2x2 and 3x1 programs over all 8 queries, 3x2, 4x1 and 2x3 programs over 4 queries per class" : "2x2 and 3x1 programs over 4 queries per class") + "; schedule cap per program " + (thorough ? "200000" : "20000");
+    ev.bounds = std::string("preemption bound ") + (thorough ? "3" : "2") + "; " + (thorough ? "2x2 and 3x1 programs over all 8 queries, 3x2, 4x1 and 2x3 programs over 4 queries per class" : "2x2 and 3x1 programs over all 8 queries per class") + "; schedule cap per program " + (thorough ? "200000" : "20000");
     ev.assumptions = {"sequentially consistent interleavings (irrelevant while the shared write set is empty)", "the monitor sees the accesses of code compiled in the instrumented translation unit (the header-only library and libstdc++ templates) plus memcpy/memmove/memset and malloc/free by interposition",
                       "layer 3 is a sampling cross-check, not the deciding step"};
     return run.finish(ev);
